@@ -72,7 +72,7 @@ inductive Ev where
   | queued (c : Nat)                  -- call `c` was appended to `_waiters`
   | rel (sid : Nat)                   -- `_Release(sink)` entered for a real sink
   | done (c : Nat) (out : Outcome)    -- the caller's frame received the response
-  | raised (what : String)            -- an exception escaped (never emitted by the model)
+  | raised (what : String)            -- an exception escaped (the model: only a failed `Open()` of the pool)
   deriving Repr, DecidableEq, Inhabited
 
 structure View where
@@ -254,6 +254,12 @@ def openedSt (s : St) (sid : Nat) : St :=
     else s
   | none => s
 
+/-- the end of `_OpenImpl`: if the pool is Closed (it was already, or `_Release` has just shut it
+    down on a connection that failed to open) the open fails with ServiceClosedError and the
+    pool stays Closed; otherwise the pool is Open -/
+def openEnd (s : St) : St :=
+  if s.pstate = .closed then s.emit (.raised "ServiceClosedError") else { s with pstate := .opened }
+
 def stepSt (cfg : Cfg) (s0 : St) (op : Op) : St :=
   let s := { s0 with base := preOp s0.base op }
   match op with
@@ -278,9 +284,9 @@ def stepSt (cfg : Cfg) (s0 : St) (op : Op) : St :=
     | sid :: rest => procQueue cfg { s with tasks := rest } sid s.waiters
   | .close => closePool s
   | .openPool ok =>
-    match get cfg s ok with
-    | (s1, .sink sid _) => { release cfg s1 sid with pstate := .opened }
-    | (s1, _) => { s1 with pstate := .opened }
+    openEnd (match get cfg s ok with
+             | (s1, .sink sid _) => release cfg s1 sid
+             | (s1, _) => s1)
 
 structure Obs where
   evs : List Ev
